@@ -197,7 +197,9 @@ type Handle struct {
 
 func (b *Bucket) Handle(name string) *Handle { return &Handle{B: b, Name: name} }
 
-func noSuchKey() error { return awserr.New(s3.ErrCodeNoSuchKey, "The specified key does not exist.", nil) }
+func noSuchKey() error {
+	return awserr.New(s3.ErrCodeNoSuchKey, "The specified key does not exist.", nil)
+}
 
 // ErrTransport is the plain transport-level error injected by fault plans.
 var ErrTransport = fmt.Errorf("verif: injected transport error")
